@@ -28,6 +28,10 @@ pub enum NOp {
     Blocked { id: u32, to: usize },
     /// algebraic probes on clones of three nodes
     Algebra { a: usize, b: usize, c: usize },
+    /// a node of a *different* configuration (same structure type) that holds `from`'s content is
+    /// merged into `to`. The documented reaction is a panic; if the call returns Ok instead, the
+    /// receiver has to honour C01 / C02 / C06 for the absorbed content.
+    MergeMismatch { from: usize, to: usize, variant: u8 },
     /// faults off: convergence phase
     Converge,
 }
@@ -512,6 +516,57 @@ impl<'a> Exec<'a> {
                         }
                     }
                 }
+                NOp::MergeMismatch { from, to, variant } => {
+                    if *from >= n || *to >= n {
+                        continue;
+                    }
+                    let other_kind = match (&case.kind, variant % 3) {
+                        (NKind::Filter(FKind::Bloom { m, k }), 0) => NKind::Filter(FKind::Bloom { m: (m / 2).max(1), k: *k }),
+                        (NKind::Filter(FKind::Bloom { m, k }), 1) => NKind::Filter(FKind::Bloom { m: m + 1, k: *k }),
+                        (NKind::Filter(FKind::Bloom { m, k }), _) => NKind::Filter(FKind::Bloom { m: *m, k: k + 1 }),
+                        (NKind::Filter(FKind::Quotient { q, r }), 0) if q + r < 64 => NKind::Filter(FKind::Quotient { q: q + 1, r: *r }),
+                        (NKind::Filter(FKind::Quotient { q, r }), 1) if *q > 1 => NKind::Filter(FKind::Quotient { q: q - 1, r: *r }),
+                        (NKind::Filter(FKind::Quotient { q, r }), _) => NKind::Filter(FKind::Quotient { q: *q, r: if *r > 1 { r - 1 } else { r + 1 } }),
+                        (NKind::Filter(FKind::Cuckoo { bucketsize, n_buckets, l_fp }), 0) => NKind::Filter(FKind::Cuckoo { bucketsize: *bucketsize, n_buckets: n_buckets * 2, l_fp: *l_fp }),
+                        (NKind::Filter(FKind::Cuckoo { bucketsize, n_buckets, l_fp }), 1) => NKind::Filter(FKind::Cuckoo { bucketsize: bucketsize + 1, n_buckets: *n_buckets, l_fp: *l_fp }),
+                        (NKind::Filter(FKind::Cuckoo { bucketsize, n_buckets, l_fp }), _) => NKind::Filter(FKind::Cuckoo { bucketsize: *bucketsize, n_buckets: *n_buckets, l_fp: if *l_fp > 2 { l_fp - 1 } else { l_fp + 1 } }),
+                        (NKind::Cms { w, d, ctr }, 0) => NKind::Cms { w: w + 1, d: *d, ctr: *ctr },
+                        (NKind::Cms { w, d, ctr }, 1) => NKind::Cms { w: *w, d: d + 1, ctr: *ctr },
+                        (NKind::Cms { w, d, ctr }, _) => NKind::Cms { w: (w / 2).max(1), d: *d, ctr: *ctr },
+                        (NKind::Hll { b }, 0) => NKind::Hll { b: if *b < 18 { b + 1 } else { b - 1 } },
+                        (NKind::Hll { b }, _) => NKind::Hll { b: if *b > 4 { b - 1 } else { b + 1 } },
+                        _ => continue,
+                    };
+                    if other_kind == case.kind {
+                        continue;
+                    }
+                    if matches!(case.kind, NKind::Cms { .. }) && total(&contents[*to]) + total(&contents[*from]) > cmax {
+                        continue;
+                    }
+                    let mut odd = AnyNode::build(&other_kind, case.hasher, 7);
+                    let mut absorbed = Content::new();
+                    for (&k, &w) in contents[*from].iter() {
+                        if odd.ingest(k, w.max(1)).is_ok() {
+                            absorbed.insert(k, if self.counting { w } else { 1 });
+                        }
+                    }
+                    self.stats.steps += 1;
+                    let target = &mut nodes[*to];
+                    match guarded(|| target.merge(&odd)) {
+                        Caught::LibPanic(..) => self.stats.probe("mismatched_merge_panicked"),
+                        Caught::Ok(Err(())) => self.stats.probe("mismatched_merge_full"),
+                        Caught::Ok(Ok(())) => {
+                            self.stats.probe("mismatched_merge_returned_ok");
+                            absorb(&mut contents[*to], &absorbed, self.counting);
+                            let ct = contents[*to].clone();
+                            let ctx = format!("node {} after a merge with an operand of configuration {:?} returned Ok", to, other_kind);
+                            let nd = nodes[*to].fork();
+                            let _ = self.check_node(&nd, &ct, &ctx) && self.check_equivalence(&nd, &ct, &ctx);
+                            // whatever was accepted: the bookkeeping of this node is no longer meaningful
+                            return;
+                        }
+                    }
+                }
                 NOp::Converge => {
                     self.stats.probe("convergence_phase");
                     if case.kind.idempotent() {
@@ -770,6 +825,8 @@ impl Scenario for S2 {
                 }
             } else if x < 97 {
                 ops.push(NOp::Algebra { a: g.usize(nodes), b: g.usize(nodes), c: g.usize(nodes) });
+            } else if x < 98 {
+                ops.push(NOp::MergeMismatch { from: g.usize(nodes), to: g.usize(nodes), variant: g.below(3) as u8 });
             }
         }
         if part.is_some() {
